@@ -78,6 +78,9 @@ type docsArgs struct {
 	Env  map[string]string `json:"env"`
 	Tree []docNode         `json:"tree"`
 	Cut  int               `json:"cut"` // top-level nodes from this index on go into override.yaml (≥ len: one file)
+	// round 7 (c07_hist.go): config files as pre-parsed dicts, loaded under each environment of Hist first
+	Dict bool                `json:"dict,omitempty"`
+	Hist []map[string]string `json:"hist,omitempty"`
 }
 
 // docsFiles lays the tree out; names lists the services that carry a value, in walk order.
@@ -152,7 +155,17 @@ func init() {
 			if err != nil {
 				return map[string]any{"skip": "materialize: " + err.Error()}
 			}
-			p, err := loader.LoadWithContext(context.Background(), req.Details(root))
+			details := req.Details(root)
+			w := &histWatch{}
+			if a.Dict {
+				if bad := dictHistory(&details, w, a.Hist, nil); bad != nil {
+					return bad
+				}
+			}
+			p, err := loader.LoadWithContext(context.Background(), details)
+			if bad := w.check(fmt.Sprintf("after loader.LoadWithContext with environment %s (preceded by %d loads of the same dicts)", envText(a.Env), len(a.Hist))); bad != "" {
+				return histBad("input-mutated", bad)
+			}
 			if err != nil {
 				return map[string]any{"rendered": t, "err": loadErrClass(err.Error())}
 			}
@@ -167,7 +180,13 @@ func init() {
 			return map[string]any{"rendered": t, "vals": vals}
 		},
 		DriverOp: "substDocs",
-		Timeout:  20 * time.Second,
+		DriverArgs: func(args, _ json.RawMessage) any { // the model knows nothing of histories: they must not matter
+			var a docsArgs
+			json.Unmarshal(args, &a)
+			a.Dict, a.Hist = false, nil
+			return a
+		},
+		Timeout: 20 * time.Second,
 		Judge: func(args, real, drv json.RawMessage) *core.Verdict {
 			if v := core.CrashVerdict(real); v != nil {
 				return v
@@ -180,6 +199,8 @@ func init() {
 				Err      string   `json:"err"`
 				Bad      string   `json:"bad"`
 				Vals     []string `json:"vals"`
+				HistBad  string   `json:"hist_bad"`
+				HistWhat string   `json:"hist_what"`
 			}
 			var d struct {
 				WF       bool              `json:"wf"`
@@ -192,6 +213,9 @@ func init() {
 			}
 			if r.Skip != "" {
 				return core.Skip(r.Skip)
+			}
+			if r.HistBad != "" {
+				return core.Fail("docs-history:"+r.HistBad, r.HistWhat)
 			}
 			if r.Bad != "" {
 				return core.Disagree(r.Bad)
@@ -324,6 +348,23 @@ func runC07Docs(ctx *core.Ctx, rnd func(depth int, inArg bool) []seg) {
 		}
 		a.Tree = tree(2, 4, names)
 		a.Cut = 1 + ctx.Rng.Intn(len(a.Tree)+1)
+		if i%4 == 3 {
+			// dict mode needs single-document config files: at most two top-level nodes, one per config file
+			if len(a.Tree) > 2 {
+				a.Tree = a.Tree[:2]
+			}
+			a.Cut, a.Dict = 1, true
+			for n := ctx.Rng.Intn(3); n > 0; n-- {
+				h := map[string]string{}
+				for _, nm := range names {
+					if ctx.Rng.Intn(2) == 0 {
+						h[nm] = []string{"", "h", "hist-" + nm, "$$", "${A}"}[ctx.Rng.Intn(5)]
+					}
+				}
+				a.Hist = append(a.Hist, h)
+			}
+			ctx.Count(fmt.Sprintf("docs-dict-history-len-%d", len(a.Hist)))
+		}
 		if a.Cut < len(a.Tree) {
 			ctx.Count("docs-layout:two-config-files")
 		} else {
